@@ -1,9 +1,10 @@
 #!/bin/bash
 # usage: tools/run_all.sh [tier] [seed] [ids...]   runs the checks one after the other on the CURRENT /repo tree and prints one line each
+R=${BEZIER_REPO:-/repo}
 tier=${1:-quick}; seed=${2:-0}; shift; shift
 ids=${@:-C01 C02 C03 C04 C05 C07 C08 C09 C10 C11 C12 C13 C14 C15 C16 C17 C18 C19 C20}
 cd "$(dirname "$0")/.."
-git -C /repo diff --quiet || echo "WARNING: /repo has uncommitted changes"
+git -C "$R" diff --quiet || echo "WARNING: /repo has uncommitted changes"
 for p in $ids; do
   t0=$(date +%s)
   out=$(VERIF_SEED=$seed timeout 7200 ./check $p --tier $tier 2>&1 | grep -v -i conda)
